@@ -32,6 +32,7 @@ package ratelimiter
 //@   property C13
 //@   mode real
 //@   requires capacity >= 0 && refillRate > 0
+//@   modifies nothing
 //@   ensures [inv] inv(result) && result.tokens == capacity && result.capacity == capacity && result.idealRate == refillRate && result.refillRate == refillRate && result.failureCount == 0 && result.penaltyUntil == 0
 //@   ensures [fresh] fresh(result)
 
